@@ -468,6 +468,11 @@ func (w *MyWorld) Stop() {
 func (w *MyWorld) Crash(host string) {
 	w.mu.Lock()
 	defer w.mu.Unlock()
+	w.CrashLocked(host)
+}
+
+// CrashLocked is Crash for hooks that already hold the world lock.
+func (w *MyWorld) CrashLocked(host string) {
 	h := w.Hosts[host]
 	if h == nil || !h.Up {
 		return
@@ -1360,3 +1365,6 @@ func (h *MyHost) Poison(uuid string, gno int64, errno int) { h.PoisonSQL[txnKey{
 
 // Cure removes a poison.
 func (h *MyHost) Cure(uuid string, gno int64) { delete(h.PoisonSQL, txnKey{uuid, gno}) }
+
+// PoisonSQL2Clear removes every poison of the host.
+func (h *MyHost) PoisonSQL2Clear() { h.PoisonSQL = map[txnKey]int{} }
